@@ -43,9 +43,9 @@ pub fn valid_ietf(rng: &mut Rng, srv: Option<&[u8]>) -> Dgram {
 
 /// A hostile datagram: one of many classes around the server's acceptance rules.
 pub fn hostile(rng: &mut Rng, srv: &[u8]) -> Dgram {
-    let k = rng.below(40);
+    let k = rng.below(44);
     match k {
-        34 | 35 => {
+        34 | 35 | 40 | 41 | 42 | 43 => {
             // a request carrying a random subset of the other known tags next to NONC, in
             // ascending wire order (well-formed) or with one adjacent pair of tags swapped (not)
             use crate::refimpl::codec::*;
@@ -63,7 +63,15 @@ pub fn hostile(rng: &mut Rng, srv: &[u8]) -> Dgram {
                     m.set(VERS, &DRAFT13.to_le_bytes());
                     continue;
                 }
-                if rng.chance(1, 4) && !(ietf && t == SRV) {
+                if ietf && t == SRV {
+                    // this server's own commitment value now and then (any tag order games must
+                    // not get such a request answered either)
+                    if rng.chance(1, 3) {
+                        m.set(SRV, srv);
+                    }
+                    continue;
+                }
+                if rng.chance(1, 4) {
                     let l = 4 * rng.below(3) as usize;
                     m.set(t, &rng.bytes(l));
                 }
@@ -76,13 +84,45 @@ pub fn hostile(rng: &mut Rng, srv: &[u8]) -> Dgram {
             let swapped = k == 35 && m.fields.len() >= 2;
             if swapped {
                 // swap the tag words only (values stay): not ascending any more
-                let i = if rng.chance(1, 2) { m.fields.len() - 2 } else { rng.usize_below(m.fields.len() - 1) };
-                let (a, b) = (m.fields[i].0, m.fields[i + 1].0);
-                m.fields[i].0 = b;
-                m.fields[i + 1].0 = a;
+                let i = match rng.below(3) {
+                    0 => m.fields.len() - 2,
+                    1 => rng.usize_below(2.min(m.fields.len() - 1)),
+                    _ => rng.usize_below(m.fields.len() - 1),
+                };
+                if rng.chance(1, 2) {
+                    // whole fields change places (each tag keeps its value)
+                    m.fields.swap(i, i + 1);
+                } else {
+                    let (a, b) = (m.fields[i].0, m.fields[i + 1].0);
+                    m.fields[i].0 = b;
+                    m.fields[i + 1].0 = a;
+                }
             }
-            let d = if ietf { m.encode_framed() } else { m.encode() };
-            Dgram { data: d, class: if no_ver { "ietf-without-ver-other-tags" } else if swapped { "tag-subset-one-pair-swapped" } else { "tag-subset-ascending" } }
+            // 40..43: the tags stay ascending, one or two words of the offset table are replaced
+            // (decreasing, repeated, past the end), lengths of the values around them change with it
+            let mut offsets_edited = false;
+            let mut d = m.encode();
+            if k >= 40 && m.fields.len() >= 3 {
+                let nf = m.fields.len();
+                let payload = d.len() - 8 * nf;
+                for _ in 0..rng.range(1, 2) {
+                    let i = rng.usize_below(nf - 1);
+                    let v = match rng.below(4) {
+                        0 => 0u32,
+                        1 => (4 * rng.below(payload as u64 / 4 + 1)) as u32,
+                        2 => {
+                            // the previous offset minus a few words (decreasing)
+                            let prev = if i == 0 { 0 } else { u32::from_le_bytes([d[4 * i], d[4 * i + 1], d[4 * i + 2], d[4 * i + 3]]) };
+                            prev.saturating_sub(4 * rng.range(1, 12) as u32)
+                        }
+                        _ => payload as u32 + 4 * rng.below(3) as u32,
+                    };
+                    d[4 + 4 * i..8 + 4 * i].copy_from_slice(&v.to_le_bytes());
+                }
+                offsets_edited = true;
+            }
+            let d = if ietf { crate::refimpl::codec::frame(&d) } else { d };
+            Dgram { data: d, class: if offsets_edited { "tag-subset-offset-table-edited" } else if no_ver { "ietf-without-ver-other-tags" } else if swapped { "tag-subset-one-pair-swapped" } else { "tag-subset-ascending" } }
         }
         36 | 37 => {
             // VER value whose BYTES contain the draft-13 word at an unaligned offset, while none of
